@@ -212,7 +212,7 @@ func deextract(repo string, cfg BuildConfig, ref symTable, overlay map[string][]
 		// literals the inliner had to leave are flattened first
 		if changedAny {
 			for _, site := range findIIFEs(pkgs) {
-				fname, content, err := fileContent(site.pkg.Fset, site.file, ov)
+				fname, content, err := fileContent(site.pkg.Fset, site.file, prev)
 				if err != nil || touched[fname] {
 					continue
 				}
@@ -254,7 +254,7 @@ func deextract(repo string, cfg BuildConfig, ref symTable, overlay map[string][]
 				}
 				lastRound = append(lastRound, name)
 				// drop the declaration
-				fname, content, err := fileContent(fset, ff.file, ov)
+				fname, content, err := fileContent(fset, ff.file, prev)
 				if err != nil || touched[fname] {
 					continue
 				}
@@ -274,7 +274,7 @@ func deextract(repo string, cfg BuildConfig, ref symTable, overlay map[string][]
 				continue
 			}
 			// the callee
-			cfname, ccontent, err := fileContent(fset, ff.file, ov)
+			cfname, ccontent, err := fileContent(fset, ff.file, prev)
 			if err != nil {
 				continue
 			}
@@ -286,7 +286,7 @@ func deextract(repo string, cfg BuildConfig, ref symTable, overlay map[string][]
 				continue
 			}
 			for _, cs := range calls {
-				fname, content, err := fileContent(cs.pkg.Fset, cs.file, ov)
+				fname, content, err := fileContent(cs.pkg.Fset, cs.file, prev)
 				if err != nil || touched[fname] {
 					continue
 				}
@@ -385,41 +385,75 @@ type iifeSite struct {
 	lhs   []ast.Expr
 	tok   token.Token // DEFINE, ASSIGN, or ILLEGAL for an expression statement / RETURN for a return statement
 	isRet bool
+
+	ifInit  *ast.IfStmt   // the literal is called in the init statement of this if
+	spawn   *ast.CallExpr // go/defer statement calling a literal with arguments
+	spawnKw string
 }
 
 func findIIFEs(pkgs map[string]*packages.Package) []iifeSite {
 	var out []iifeSite
+	iife := func(e ast.Expr) *ast.FuncLit {
+		ce, ok := ast.Unparen(e).(*ast.CallExpr)
+		if !ok || len(ce.Args) != 0 {
+			return nil
+		}
+		fl, _ := ast.Unparen(ce.Fun).(*ast.FuncLit)
+		return fl
+	}
 	for path, pk := range pkgs {
 		if !strings.HasPrefix(path, pkgSftp) || strings.Contains(path, "/examples/") || pk.TypesInfo == nil {
 			continue
 		}
 		for _, f := range pk.Syntax {
-			ast.Inspect(f, func(n ast.Node) bool {
-				iife := func(e ast.Expr) *ast.FuncLit {
-					ce, ok := ast.Unparen(e).(*ast.CallExpr)
-					if !ok || len(ce.Args) != 0 {
-						return nil
+			visit := func(list []ast.Stmt) {
+				for _, st := range list {
+					if ls, ok := st.(*ast.LabeledStmt); ok {
+						st = ls.Stmt
 					}
-					fl, _ := ast.Unparen(ce.Fun).(*ast.FuncLit)
-					return fl
+					switch s := st.(type) {
+					case *ast.AssignStmt:
+						if len(s.Rhs) == 1 && (s.Tok == token.DEFINE || s.Tok == token.ASSIGN) {
+							if fl := iife(s.Rhs[0]); fl != nil {
+								out = append(out, iifeSite{pkg: pk, file: f, stmt: s, lit: fl, lhs: s.Lhs, tok: s.Tok})
+							}
+						}
+					case *ast.ExprStmt:
+						if fl := iife(s.X); fl != nil {
+							out = append(out, iifeSite{pkg: pk, file: f, stmt: s, lit: fl})
+						}
+					case *ast.ReturnStmt:
+						if len(s.Results) == 1 {
+							if fl := iife(s.Results[0]); fl != nil {
+								out = append(out, iifeSite{pkg: pk, file: f, stmt: s, lit: fl, isRet: true})
+							}
+						}
+					case *ast.IfStmt:
+						// if x := func() T {…}(); cond { … }
+						if as, ok := s.Init.(*ast.AssignStmt); ok && len(as.Rhs) == 1 && as.Tok == token.DEFINE {
+							if fl := iife(as.Rhs[0]); fl != nil {
+								out = append(out, iifeSite{pkg: pk, file: f, stmt: s, lit: fl, lhs: as.Lhs, tok: as.Tok, ifInit: s})
+							}
+						}
+					case *ast.GoStmt:
+						if fl, ok := ast.Unparen(s.Call.Fun).(*ast.FuncLit); ok && len(s.Call.Args) > 0 {
+							out = append(out, iifeSite{pkg: pk, file: f, stmt: s, lit: fl, spawn: s.Call, spawnKw: "go"})
+						}
+					case *ast.DeferStmt:
+						if fl, ok := ast.Unparen(s.Call.Fun).(*ast.FuncLit); ok && len(s.Call.Args) > 0 {
+							out = append(out, iifeSite{pkg: pk, file: f, stmt: s, lit: fl, spawn: s.Call, spawnKw: "defer"})
+						}
+					}
 				}
-				switch s := n.(type) {
-				case *ast.AssignStmt:
-					if len(s.Rhs) == 1 && (s.Tok == token.DEFINE || s.Tok == token.ASSIGN) {
-						if fl := iife(s.Rhs[0]); fl != nil {
-							out = append(out, iifeSite{pkg: pk, file: f, stmt: s, lit: fl, lhs: s.Lhs, tok: s.Tok})
-						}
-					}
-				case *ast.ExprStmt:
-					if fl := iife(s.X); fl != nil {
-						out = append(out, iifeSite{pkg: pk, file: f, stmt: s, lit: fl})
-					}
-				case *ast.ReturnStmt:
-					if len(s.Results) == 1 {
-						if fl := iife(s.Results[0]); fl != nil {
-							out = append(out, iifeSite{pkg: pk, file: f, stmt: s, lit: fl, isRet: true})
-						}
-					}
+			}
+			ast.Inspect(f, func(n ast.Node) bool {
+				switch x := n.(type) {
+				case *ast.BlockStmt:
+					visit(x.List)
+				case *ast.CaseClause:
+					visit(x.Body)
+				case *ast.CommClause:
+					visit(x.Body)
 				}
 				return true
 			})
@@ -428,10 +462,90 @@ func findIIFEs(pkgs map[string]*packages.Package) []iifeSite {
 	return out
 }
 
+// bindSpawnArgs turns `go func(p T){B}(a)` into `{ var p T = a; go func(){B}() }` (the arguments of a go or defer
+// statement are evaluated when the statement executes, which is where the declarations now stand).
+func bindSpawnArgs(site iifeSite) string {
+	fset := site.pkg.Fset
+	lit, call := site.lit, site.spawn
+	if call.Ellipsis.IsValid() || lit.Type.Params == nil {
+		return ""
+	}
+	type prm struct{ name, typ string }
+	var params []prm
+	for _, fld := range lit.Type.Params.List {
+		if _, variadic := fld.Type.(*ast.Ellipsis); variadic {
+			return ""
+		}
+		var tb bytes.Buffer
+		if printNode(&tb, fset, fld.Type) != nil {
+			return ""
+		}
+		if len(fld.Names) == 0 {
+			params = append(params, prm{"_", tb.String()})
+		}
+		for _, nm := range fld.Names {
+			params = append(params, prm{nm.Name, tb.String()})
+		}
+	}
+	if len(params) != len(call.Args) {
+		return ""
+	}
+	// a later argument must not mention the name of an earlier parameter (it would be captured by the new declaration)
+	for i, a := range call.Args {
+		clash := false
+		ast.Inspect(a, func(n ast.Node) bool {
+			if id, ok := n.(*ast.Ident); ok {
+				for j := 0; j < i; j++ {
+					if params[j].name == id.Name && id.Name != "_" {
+						clash = true
+					}
+				}
+			}
+			return true
+		})
+		if clash {
+			return ""
+		}
+	}
+	var out bytes.Buffer
+	out.WriteString("{\n")
+	for i, a := range call.Args {
+		var ab bytes.Buffer
+		if printNode(&ab, fset, a) != nil {
+			return ""
+		}
+		if params[i].name == "_" {
+			fmt.Fprintf(&out, "_ = %s\n", ab.String())
+		} else {
+			fmt.Fprintf(&out, "var %s %s = %s\n_ = %s\n", params[i].name, params[i].typ, ab.String(), params[i].name)
+		}
+	}
+	var bb bytes.Buffer
+	if printNode(&bb, fset, lit.Body) != nil {
+		return ""
+	}
+	res := ""
+	if lit.Type.Results != nil && len(lit.Type.Results.List) > 0 {
+		var rb bytes.Buffer
+		if printNode(&rb, fset, lit.Type.Results) != nil {
+			return ""
+		}
+		res = " " + rb.String()
+		if !strings.HasPrefix(strings.TrimSpace(res), "(") {
+			res = " (" + strings.TrimSpace(res) + ")"
+		}
+	}
+	fmt.Fprintf(&out, "%s func()%s %s()\n}\n", site.spawnKw, res, bb.String())
+	return out.String()
+}
+
 var flattenCounter int
 
 // flattenOne returns the replacement text for the statement, or "" when the literal must be left alone.
 func flattenOne(site iifeSite) string {
+	if site.spawn != nil {
+		return bindSpawnArgs(site)
+	}
 	info := site.pkg.TypesInfo
 	fset := site.pkg.Fset
 	lit := site.lit
@@ -668,11 +782,20 @@ func flattenOne(site iifeSite) string {
 		fmt.Fprintf(&out, "%s = %s\n", strings.Join(l, ", "), strings.Join(r, ", "))
 	}
 	out.WriteString("}\n")
+	text := out.String()
 	// the label must be used: if BODY never returns early add a break at its end
 	if !strings.Contains(bb.String(), "break "+label) {
-		return strings.Replace(out.String(), "default:\n"+bb.String(), "default:\n"+bb.String()+"break "+label+"\n", 1)
+		text = strings.Replace(text, "default:\n"+bb.String(), "default:\n"+bb.String()+"break "+label+"\n", 1)
 	}
-	return out.String()
+	if site.ifInit != nil {
+		site.ifInit.Init = nil
+		var ib bytes.Buffer
+		if printNode(&ib, fset, site.ifInit) != nil {
+			return ""
+		}
+		text = "{\n" + text + ib.String() + "\n}\n"
+	}
+	return text
 }
 
 func printNode(w io.Writer, fset *token.FileSet, n any) error {
